@@ -169,3 +169,70 @@ pub fn config_from_pairs(pairs: &[(String, String)]) -> Result<Config, String> {
     }
     Ok(c)
 }
+
+/// One entry of a `FormatReport`: (file, line, kind, found, max, is_comment, is_string);
+/// kind in the declaration order of `ErrorKind`.
+pub type ReportEntry = (String, usize, u8, usize, usize, bool, bool);
+
+/// Read-only view of a `FormatReport`: its entries (sorted by file, then in push
+/// order), the exit-relevant flags (declaration order of `ReportedErrors`) and the
+/// ranges of lines that were not formatted.
+pub fn report_entries(report: &crate::FormatReport) -> (Vec<ReportEntry>, [bool; 7], Vec<(usize, usize)>) {
+    let internal = report.internal.borrow();
+    let mut files: Vec<_> = internal.0.keys().cloned().collect();
+    files.sort_by_key(|f| f.to_string());
+    let mut out = Vec::new();
+    for f in files {
+        for e in &internal.0[&f] {
+            let (line, kind, found, max, c, s) = crate::formatting::verif::error_fields(e);
+            out.push((f.to_string(), line, kind, found, max, c, s));
+        }
+    }
+    let r = &internal.1;
+    let flags = [
+        r.has_operational_errors,
+        r.has_parsing_errors,
+        r.has_formatting_errors,
+        r.has_macro_format_failure,
+        r.has_check_errors,
+        r.has_diff,
+        r.has_unformatted_code_errors,
+    ];
+    (out, flags, report.non_formatted_ranges.clone())
+}
+
+/// `format_lines` (formatting.rs) on `text`: returns the text after truncation and the report.
+pub fn format_lines(
+    text: &str,
+    skipped_range: &[(usize, usize)],
+    config: &Config,
+) -> (String, Vec<ReportEntry>, [bool; 7]) {
+    let mut buf = text.to_owned();
+    let report = crate::FormatReport::new();
+    crate::formatting::verif::run_format_lines(&mut buf, &FileName::Stdin, skipped_range, config, &report);
+    let (entries, flags, _) = report_entries(&report);
+    (buf, entries, flags)
+}
+
+/// `CharClasses` (comment.rs) over the chars of `text`: (kind, char) with kind in
+/// the declaration order of `FullCodeCharKind`.
+pub fn char_classes(text: &str) -> Vec<(u8, char)> {
+    use crate::comment::{CharClasses, FullCodeCharKind as K};
+    CharClasses::new(text.chars())
+        .map(|(k, c)| {
+            let n = match k {
+                K::Normal => 0,
+                K::StartComment => 1,
+                K::InComment => 2,
+                K::EndComment => 3,
+                K::StartStringCommented => 4,
+                K::EndStringCommented => 5,
+                K::InStringCommented => 6,
+                K::StartString => 7,
+                K::EndString => 8,
+                K::InString => 9,
+            };
+            (n, c)
+        })
+        .collect()
+}
